@@ -32,7 +32,7 @@ def main():
     shutil.copy(os.path.join(src, 'demo.rs'), os.path.join(WT, 'tests', 'demo_x.rs'))
     rc1, o1 = sh('cargo test --offline --test demo_x 2>&1 | tail -5', cwd=WT)
     conf['demo_with_patch'] = o1.strip()[-300:]
-    demo_fails = 'test result: FAILED' in o1 or 'panicked' in o1
+    demo_fails = 'test result: FAILED' in o1 or 'panicked' in o1 or 'aborting' in o1 or "didn't exit successfully" in o1
     sh('git checkout -q -- src', cwd=WT)
     rc2, o2 = sh('cargo test --offline --test demo_x 2>&1 | tail -3', cwd=WT)
     conf['demo_without_patch'] = o2.strip()[-300:]
